@@ -1071,7 +1071,7 @@ func c02DiagCase(text string, truth any, dom bool) map[string]any {
 				impl = []J{{"code": "panic"}}
 			}
 		}()
-		res := analyzer.New().Analyze(j)
+		res := longLivedAnalyzer().Analyze(j)
 		for _, d := range res.Diagnostics {
 			switch d.Code {
 			case "UNBALANCED":
